@@ -11,7 +11,7 @@ CHECKS = {
 }
 
 CHECKS["C01"] = {
-    "text": "Proof of the mechanism (Verus, real code extracted each run): GroupingContainer::{insert,get,begin_group,end_group} equal a stack-of-snapshots model for every history and depth (representation invariant proved preserved); update_save_stack: Local keeps the first overwritten value of the innermost level, Global purges the variable from EVERY level, other types' slots framed; command::Map opens/closes a group in BOTH its containers (control sequences and active characters) and routes inserts; VM::begin_group / VM::end_group keep the command map, the variable save stack and the font save stack in lockstep for every history (so the two unwrap()s on the popped stacks cannot fail); prefix::Component::read_and_reset_global consumes the \\global flag exactly once and honours \\globaldefs; process_prefixes / complete_prefix / assert_only_global_prefix: all prefix commands are consumed, the prefixed command stays in the input and must be prefixable (variables and fonts by \\global only), the sticky bit is set iff \\global is among the prefixes and the component is untouched otherwise, and the panic! in Prefix::get_one is unreachable from the three primitives.",
+    "text": "Proof of the mechanism (Verus, real code extracted each run): GroupingContainer::{insert,get,begin_group,end_group} equal a stack-of-snapshots model for every history and depth (representation invariant proved preserved); update_save_stack: Local keeps the first overwritten value of the innermost level, Global purges the variable from EVERY level, other types' slots framed; command::Map opens/closes a group in BOTH its containers (control sequences and active characters) and routes inserts; Map::alias_control_sequence (\\let) inserts the CURRENT meaning of its source - also when source and alias are the same name - with the given scope; VM::begin_group / VM::end_group keep the command map, the variable save stack and the font save stack in lockstep for every history (so the two unwrap()s on the popped stacks cannot fail); prefix::Component::read_and_reset_global consumes the \\global flag exactly once and honours \\globaldefs; process_prefixes / complete_prefix / assert_only_global_prefix: all prefix commands are consumed, the prefixed command stays in the input and must be prefixable (variables and fonts by \\global only), the sticky bit is set iff \\global is among the prefixes and the component is untouched otherwise, and the panic! in Prefix::get_one is unreachable from the three primitives.",
     "design_ref": "DESIGN.md §5 C01",
     "note": "Not verified: VM::run_impl dispatch, TypedVariable::set and SaveStackMap::restore (they call setters through function-pointer fields, which Verus rejects), Vec backing container get_mut (get/remove/insert are proved), the macro-generated map_getter closures (assumed to be field lenses). Trusted: vstd HashMap model, HashMap::get_mut delegation, consuming HashMap iteration modelled as take-any-until-empty. A bounded driver (real VM + stdlib vs a snapshot model over group histories) stands in for the unverified glue and is labelled bounded.",
     "technique": "contract-based deductive verification (Verus: data-structure invariant + abstract model view, loop invariants, closure lens contract)",
